@@ -115,10 +115,14 @@ class FilterHandler:
 
 
 class BareHandler:
+    def __init__(self, to_stderr=False):
+        # Standard output may be taken by the image ('-o -')
+        self.to_stderr = to_stderr
+
     def __call__(self, priority, identifier, *reports):
         for ctx_start, _ctx_end, text in reports:
             text = text.replace("\n", " ")
-            print(f"{ctx_start!r}: {priority.raw_text}: {text}")
+            print(f"{ctx_start!r}: {priority.raw_text}: {text}", file=sys.stderr if self.to_stderr else sys.stdout)
 
 
 class GraphicalHandler:
